@@ -411,6 +411,7 @@ def run(ctx):
     ctx.attempt(notation_rotation_rule, ctx)
     ctx.attempt(integer_stiffness_rule, ctx)
     ctx.attempt(integer_parameter_rule, ctx)
+    ctx.attempt(admissibility_rule, ctx)
     ctx.attempt(heterogeneity_detection_rule, ctx)
     from ..shared import notify_last_rule as _notify_last_rule
 
@@ -721,3 +722,69 @@ def exact_num(x):
     if isinstance(x, Poly) and x.is_const():
         x = x.const_value()
     return x
+
+
+def admissibility_rule(ctx, rid="R11.13"):
+    """'For every elastic law the stiffness is symmetric positive definite': the moduli an orthotropic / transversely
+    isotropic law accepts.  `_Behavior` is interpreted at exact rational parameter points (chosen so that every square
+    root the tests take is rational); the compliance literal it builds is classified exactly (Sylvester: leading
+    principal minors in Q).  A positive definite compliance must be ACCEPTED (no admissibility test may refuse a
+    material of the class, with the stiff direction first or last), and a compliance that is not positive definite
+    (a 2 x 2 principal minor or the determinant of the normal block not positive) must be REFUSED."""
+    repo = ctx.repo
+    r = ctx.rule(rid, "admissible moduli: at exact parameter points `_Behavior` accepts the material iff the compliance literal is positive definite (2 x 2 minors and determinant of the normal block; stiff axis first, second or last; orthotropic and transversely isotropic)", min_instances=40)
+    pts = []
+    # Orthotropic: (E1, E2, E3) permutations of (16, 4, 1); v_ij = t_ij sqrt(E_i / E_j) with |t| < 1 inside the 2 x 2 bounds
+    for E in ((16, 4, 1), (1, 4, 16), (4, 16, 1), (1, 16, 4), (4, 1, 16), (16, 1, 4)):
+        E1, E2, E3 = (Q(x) for x in E)
+        r23, r13, r12 = (MQ.sqrt(E2 / E3), MQ.sqrt(E1 / E3), MQ.sqrt(E1 / E2))
+        rr = [x.rational() for x in (r23, r13, r12)]
+        for t in ((Q(1, 2), Q(1, 4), Q(1, 4)), (Q(3, 4), Q(0), Q(0)), (Q(0), Q(3, 4), Q(0)), (Q(0), Q(0), Q(-3, 4)), (Q(5, 4), Q(0), Q(0)), (Q(0), Q(-5, 4), Q(0)), (Q(0), Q(0), Q(5, 4))):
+            pts.append(("Orthotropic", dict(E1=E1, E2=E2, E3=E3, G23=Q(3), G13=Q(5), G12=Q(7), v23=t[0] * rr[0], v13=t[1] * rr[1], v12=t[2] * rr[2])))
+    # all 2 x 2 minors positive, determinant negative (Poisson ratios inside the range of the parameter descriptors)
+    pts.append(("Orthotropic", dict(E1=Q(1), E2=Q(4), E3=Q(16), G23=Q(3), G13=Q(5), G12=Q(7), v23=Q(2, 5), v13=Q(1, 5), v12=Q(2, 5))))
+    pts.append(("Orthotropic", dict(E1=Q(1), E2=Q(4), E3=Q(16), G23=Q(3), G13=Q(5), G12=Q(7), v23=Q(1, 5), v13=Q(1, 10), v12=Q(1, 5))))
+    # transversely isotropic: positive definite iff -1 < vt and 1 - vt - 2 vl^2 Et / El > 0
+    for El, Et, vl, vt in ((1, 16, Q(1, 5), Q(9, 20)), (1, 16, Q(1, 10), Q(9, 20)), (16, 1, Q(1, 4), Q(1, 4)), (16, 1, Q(2, 5), Q(9, 10)), (1, 4, Q(2, 5), Q(-1, 2)), (1, 1, Q(2, 5), Q(7, 10))):
+        pts.append(("TransverselyIsotropic", dict(El=Q(El), Et=Q(Et), Gl=Q(3), vl=vl, vt=vt)))
+    for cname, prm in pts:
+        ci = repo.cls(f"{LAWS}.{cname}")
+        f = ci.methods["_Behavior"]
+        cap = {}
+        obj = XObj(ci, dict(prm))
+        obj.attrs.update(dim=3, planeStress=False)
+        for ax in ("axis_l", "axis_t", "axis_1", "axis_2"):
+            obj.attrs[ax] = Opaque(ax)
+
+        def capture(**kw):
+            cap.update(kw)
+            return (kw["material_cM"], kw["material_sM"])
+
+        obj.attrs["_Apply_basis_transformation"] = capture
+        I = Interp(repo)
+        I.call_hook = base_hook
+        r.instance(fn=f.qualname)
+        refused = None
+        try:
+            I.call_function(f, [3], self_obj=obj)
+        except XRaise as e:
+            if e.exc_name != "AssertionError":
+                r.fail(f.qualname, f"raises:{e.exc_name}", f.file, f.lineno, f"{cname}._Behavior", f"raises {e} at {prm}")
+                continue
+            refused = e.msg
+        # the compliance of the class, from the parameters (engineering constants): classification in Q
+        p = prm
+        if cname == "TransverselyIsotropic":
+            p = dict(E1=p["El"], E2=p["Et"], E3=p["Et"], v12=p["vl"], v13=p["vl"], v23=p["vt"])
+        S3 = [[1 / p["E1"], -p["v12"] / p["E1"], -p["v13"] / p["E1"]], [-p["v12"] / p["E1"], 1 / p["E2"], -p["v23"] / p["E2"]], [-p["v13"] / p["E1"], -p["v23"] / p["E2"], 1 / p["E3"]]]
+        m2 = [S3[a][a] * S3[b][b] - S3[a][b] ** 2 for a, b in ((0, 1), (0, 2), (1, 2))]
+        det = (S3[0][0] * (S3[1][1] * S3[2][2] - S3[1][2] ** 2) - S3[0][1] * (S3[0][1] * S3[2][2] - S3[1][2] * S3[0][2]) + S3[0][2] * (S3[0][1] * S3[1][2] - S3[1][1] * S3[0][2]))
+        spd = all(m > 0 for m in m2) and det > 0
+        bad2 = any(m <= 0 for m in m2)
+        label = ", ".join(f"{k}={v}" for k, v in prm.items() if k[0] in "Ev")
+        if spd and refused is not None:
+            r.fail(f.qualname, f"refuses-admissible:{refused[:60]}", f.file, f.lineno, f"{cname}._Behavior", f"a material whose compliance is positive definite ({label}) is refused by `{refused}`: the test is not a consequence of positive definiteness (it bounds the ratio the wrong way round)")
+        elif not spd and refused is None:
+            r.fail(f.qualname, "accepts-indefinite-2x2" if bad2 else "accepts-indefinite", f.file, f.lineno, f"{cname}._Behavior", f"a material whose compliance is not positive definite ({label}: {'a 2 x 2 principal minor' if bad2 else 'the determinant of the normal block'} is not positive) is accepted: the stiffness handed out is not positive definite")
+        else:
+            r.ok(f"{cname} {label}: {'accepted' if refused is None else 'refused'} ({'positive definite' if spd else 'indefinite'})")
